@@ -161,6 +161,25 @@ def _call(entry: str, x: dict, ctx: _Ctx):
             return np.asarray(m.landscape(sub, (1.0, 1.0, 1.0), quat, np.zeros(3)))
         r = m.align(sub, (1.5, 1.5, 1.5), quat, np.zeros(3))
         return np.concatenate([np.asarray(r.shift, dtype=np.float64), [float(r.score)]])
+    if entry == "matcher_provider_scales":
+        # ONE template matcher built from an ImageProvider (its pixel size depends on the scale), used at different scales
+        from acryo import pick, pipe
+
+        if "matcher" not in ctx.models:
+            ctx.models["matcher"] = pick.ZNCCTemplateMatcher(pipe.from_array(_blob((7, 7, 7)), original_scale=1.0))
+        scale = (1.0, 0.5)[x["a"]]
+        tmpl = np.asarray(pipe.from_array(_blob((7, 7, 7)), original_scale=1.0)(scale))
+        n = tmpl.shape[0]
+        img = np.zeros((3 * n + 8,) * 3, np.float32)
+        for k, p in enumerate(((n, n, n), (2 * n + 2, n + 1 + x["b"], 2 * n), (n + 2, 2 * n + 3, n + 1 + x["c"]))):
+            sl = tuple(slice(q - n // 2, q - n // 2 + n) for q in p)
+            img[sl] += tmpl
+        mol = ctx.models["matcher"].pick_molecules(img, scale, min_distance=2.0, min_score=0.7)
+        pos = np.asarray(mol.pos, dtype=np.float64)
+        order = np.lexsort(pos.T[::-1]) if len(pos) else []
+        out = np.full((6, 3), -1.0)
+        out[: min(6, len(pos))] = pos[order][:6]
+        return out
     if entry == "loader_load_inplace":
         ldr = ctx.loader_at(x["a"], None)
         box = ((5, 5, 5), (4, 5, 6))[x["b"]]
